@@ -47,7 +47,7 @@ def run_property(P, tier, seed, replay=None):
                 proof_errors += ["translator: " + e for e in (P.regenerate(run) or [])]
             except Exception as e:  # fail closed
                 proof_errors.append("translator aborted: %r" % (e,))
-        hits = C.scan_forbidden()
+        hits = C.scan_forbidden(C.coq_closure(list(P.COQ_TARGETS) + [P.PROPERTY_FILE]))
         if hits:
             proof_errors += ["forbidden token: " + h for h in hits]
         ok, out = C.coq_make(P.COQ_TARGETS)
